@@ -28,7 +28,7 @@ def main():
         print("clean tree + demo: rc=%d %s" % (rc, "PASS" if rc == 0 else "FAIL"))
         if rc != 0:
             print(o[-1200:]); ok = False
-        rc, o = run("git apply %s" % os.path.abspath(os.path.join(out, "patch.diff")), wt)
+        rc, o = run("git apply %s || git apply --3way %s" % (os.path.abspath(os.path.join(out, "patch.diff")), os.path.abspath(os.path.join(out, "patch.diff"))), wt)
         if rc != 0:
             print("patch does not apply:", o); return 3
         rc, o = run("go test -vet=off -count=1 -run '%s' %s" % (regex, pkg), wt)
